@@ -61,6 +61,7 @@ type FnExec struct {
 	entry    *State
 	globErrs map[*ssa.Global]*Term
 	crossMode map[string]bool
+	idxNames map[int]*Term
 	tcMu sync.Mutex
 	curStatic []types.Type
 	boxAxiom map[string]bool
@@ -143,7 +144,7 @@ type Frame struct {
 func newFnExec(e *Engine, c *Contract, fn *ssa.Function) *FnExec {
 	x := &FnExec{E: e, tc: NewTermCtx(), top: c, topFn: fn, bv: c.Mode == "bv", noOvf: c.NoOverflow,
 		kindCnt: map[string]int{}, ranged: map[int]bool{}, rangedSl: map[int]bool{}, heapSorts: map[string]Sort{},
-		strConsts: map[string]*Term{}, trustedUsed: map[string]bool{}, typeTags: map[string]int{}, globErrs: map[*ssa.Global]*Term{}, crossMode: map[string]bool{}, boxAxiom: map[string]bool{}, ghostTypes: map[string]types.Type{}}
+		strConsts: map[string]*Term{}, trustedUsed: map[string]bool{}, typeTags: map[string]int{}, globErrs: map[*ssa.Global]*Term{}, crossMode: map[string]bool{}, idxNames: map[int]*Term{}, boxAxiom: map[string]bool{}, ghostTypes: map[string]types.Type{}}
 	return x
 }
 
@@ -734,6 +735,10 @@ func (x *FnExec) discover(fr *Frame, li *loopInfo) (map[string]bool, map[ssa.Val
 	for k, v := range x.globErrs {
 		saveErr[k] = v
 	}
+	saveIdx := map[int]*Term{}
+	for k, v := range x.idxNames {
+		saveIdx[k] = v
+	}
 	saveBox := map[string]bool{}
 	for k, v := range x.boxAxiom {
 		saveBox[k] = v
@@ -759,6 +764,7 @@ func (x *FnExec) discover(fr *Frame, li *loopInfo) (map[string]bool, map[ssa.Val
 	x.obls, x.assumes = x.obls[:nob], x.assumes[:nas]
 	x.facts = x.facts[:nfa]
 	x.ranged, x.rangedSl, x.strConsts, x.globErrs, x.boxAxiom = saveRanged, saveRangedSl, saveStr, saveErr, saveBox
+	x.idxNames = saveIdx
 	x.kindCnt = saveCnt
 	fr.done = saveDone
 	fr.rets = fr.rets[:nrets]
@@ -1028,10 +1034,36 @@ func (x *FnExec) asComparable(v Value) Value {
 	case *IfaceV:
 		return p.id
 	case *Place:
-		if p.kind == pkHeap && len(p.path) == 0 {
+		if p.kind == pkHeap && len(p.path) == 0 && p.aidx == nil {
 			return p.ref
 		}
-		unsupp("comparison of interior pointers")
+		// interior pointer: an injective function of (base, path); never nil
+		var base *Term
+		name := "addr"
+		switch p.kind {
+		case pkHeap:
+			base = p.ref
+			pk, _ := pathKey(p.obj, p.path)
+			name += ":" + typeKey(p.obj) + pk
+		case pkElem:
+			if p.aidx != nil {
+				unsupp("comparison of pointer into array inside aggregate")
+			}
+			pk, _ := pathKey(p.elem, p.path)
+			name += ":elem:" + typeKey(p.elem) + pk
+			r := x.tc.UF(name, x.refSort(), p.arr, p.idx)
+			if !r.bound {
+				x.addFact(x.tc.Not(x.tc.Eq(r, x.refConst(0))))
+			}
+			return r
+		default:
+			unsupp("comparison of pointer to local or global")
+		}
+		r := x.tc.UF(name, x.refSort(), base)
+		if !r.bound {
+			x.addFact(x.tc.Not(x.tc.Eq(r, x.refConst(0))))
+		}
+		return r
 	}
 	return v
 }
@@ -1162,9 +1194,24 @@ func (x *FnExec) stringToBytes(st *State, s *Term) *SliceV {
 	return sl
 }
 
+// nameIndex gives a compound index term a name: solvers normalise ground sums such as off+(i+1), after
+// which quantifier patterns of the shape off+?k no longer match them.
+func (x *FnExec) nameIndex(idx *Term, g *Term) *Term {
+	if idx.op == "sym" || idx.op == "const" || idx.bound {
+		return idx
+	}
+	if n, ok := x.idxNames[idx.id]; ok {
+		return n
+	}
+	n := x.tc.Fresh("ix", idx.sort)
+	x.addFact(x.tc.Eq(n, idx))
+	x.idxNames[idx.id] = n
+	return n
+}
+
 func (x *FnExec) indexAddr(fr *Frame, v *ssa.IndexAddr, st *State, g *Term) Value {
 	tc := x.tc
-	idx := x.toRefSort(fr.val(v.Index).(*Term), v.Index.Type())
+	idx := x.nameIndex(x.toRefSort(fr.val(v.Index).(*Term), v.Index.Type()), g)
 	xv := fr.val(v.X)
 	switch xt := v.X.Type().Underlying().(type) {
 	case *types.Slice:
